@@ -48,6 +48,37 @@ func runC06(c *Ctx) {
 	c.Rule("C06.paths-agree", "the index slices given to AddQuery and UpdateOnce are built only from path.ToStrings results (plus the subscription path's origin); the snapshot path comes from path.CompletePath")
 
 	matchDescent(c, "C06.descent")
+	// ---- an offer is decided by the registry alone: every exported entry point that offers reaches the descent
+	c.Rule("C06.always-descends", "match.(*Match).Update and UpdateOnce: every path that returns has run the descent from the root of the registry with the caller's notification and path - no early exit decided by state kept beside the trie (a counter of live queries, a cached flag), which an idempotent remove called twice or a re-registration can leave out of step with what is registered")
+	{
+		upd := P.Method("match", "branch", "update")
+		n := 0
+		for _, name := range []string{"Update", "UpdateOnce"} {
+			f := P.Method("match", "Match", name)
+			if f == nil || upd == nil {
+				c.Unresolved("C06.always-descends", "match.(*Match)."+name+" / (*branch).update")
+				continue
+			}
+			c.Analysed(fnName(f))
+			e := &PPA{Watch: func(ev *Ev) bool { return ev.Label == "call:"+fnName(upd) },
+				Inline: func(fr *Frame, call ssa.CallInstruction, callee *ssa.Function) bool {
+					return callee.Pkg == f.Pkg && callee != upd && callee != f // one entry point written in terms of the other
+				}}
+			e.Run(f)
+			c.Paths += len(e.Paths)
+			for i := range e.Paths {
+				p := &e.Paths[i]
+				if p.End != "return" {
+					continue
+				}
+				n++
+				di := p.Index(0, lbl("call:"+fnName(upd)))
+				okArgs := di >= 0 && len(p.Trace[di].Args) >= 3 && frameResolve(p.Trace[di].Args[1]).V == ssa.Value(param(f, 1)) && frameResolve(p.Trace[di].Args[2]).V == ssa.Value(param(f, 2))
+				c.Check(okArgs, "C06.always-descends", fnName(f), "every return is preceded by the descent with the caller's notification and path", P.Pos(f.Pos()), "path: "+p.String())
+			}
+		}
+		c.Floor("C06.always-descends/paths", n, 2)
+	}
 	c.Borrow("C09", map[string]string{"C09.query-table": "C06.query-table"}, "'every leaf a query for that path would return is also streamed' needs the query relation to be the per-node table the match descent contains")
 	isInvoke := func(ev *Ev) bool {
 		ci, ok := ev.In.(ssa.CallInstruction)
